@@ -512,5 +512,27 @@ theorem run_stack_persist {κ υ} [DecidableEq κ] (I : Interp) (g₁ : Graph κ
         rw [run_defined I _ _ m _ _ hlit]
         rfl
 
+/-! ### check_meta -/
+
+theorem equalDtypes_self (a : DType) : equalDtypes (some a) (some a) = true := by
+  cases a with
+  | num i => rfl
+  | other i => simp [equalDtypes]
+  | cat c => cases c <;> simp [equalDtypes]
+
+theorem lookup_isSome_of_mem (l : List (String × DType)) (p : String × DType) (hp : p ∈ l) :
+    (l.lookup p.1).isSome = true := by
+  induction l with
+  | nil => cases hp
+  | cons q t ih =>
+    simp only [List.lookup]
+    by_cases hq : p.1 = q.1
+    · simp [hq]
+    · have hb : (p.1 == q.1) = false := by simp [hq]
+      rw [hb]
+      rcases List.mem_cons.mp hp with he | he
+      · exact absurd (by rw [he]) hq
+      · exact ih he
+
 end Boundary
 end Dx
